@@ -63,6 +63,7 @@ def result_type(*a):
 def _undt(x):
     if isinstance(x, ndarray): return x.dtype if not isinstance(x.dtype, DT) else x.dtype.dtype
     return x.dtype if isinstance(x, DT) else x
+def issubdtype(a, b): return builtins.bool(_rnp.issubdtype(_undt(a), _undt(b)))
 def can_cast(a, b, casting='safe'): return bool(_rnp.can_cast(_undt(a), _undt(b), casting))
 def promote_types(a, b): return DT(_rnp.promote_types(_undt(a), _undt(b)))
 
@@ -1076,6 +1077,11 @@ def flip(a, axis=None):
     if axis is None: raise NeedsContract('flip without axis')
     axis = axis % a.ndim; n = a.shape[axis]; f = a.snapshot()
     return ndarray.fresh(a.shape, lambda i: f(i[:axis] + (n - 1 - i[axis],) + i[axis + 1:]), a.dtype)
+def stack(arrs, axis=0):
+    arrs = [asarray(a) for a in arrs]
+    nd = arrs[0].ndim + 1; axis = axis % nd
+    parts = [a[(slice(None),) * axis + (None,)] for a in arrs]
+    return concatenate(parts, axis=axis)
 def concatenate(arrs, axis=0):
     arrs = [asarray(a) for a in arrs]; axis = axis % arrs[0].ndim
     dt = _rnp.result_type(*[a.dtype for a in arrs])
